@@ -151,6 +151,7 @@ class _Normalizer:
                     break
             # (a cache and the emptying of what it hands out may have met only now, in the caller)
             self._each_function(m, self._memo_elision)
+            self._each_function(m, self._missing_hooks)
             self._each_function(m, self._builtin_forms)
             self._each_function(m, self._iteration_idioms)
             self._each_function(m, self._yield_from)
@@ -1314,6 +1315,60 @@ class _Normalizer:
 
     # ------------------------------------------------------------------ 6b. one spelling for builtin idioms
     ITER_CONSUMERS = ('max', 'min', 'sorted', 'list', 'tuple', 'set', 'frozenset', 'iter', 'enumerate', 'any', 'all', 'sum', 'len')
+
+    def _missing_tables(self) -> Dict[str, ast.expr]:
+        """{module-level name: expression} for the names of this module bound once to ``K()`` with K a class of the module that
+        derives from dict and defines ``__missing__(self, key): return E`` with E free of self and key (and no ``__getitem__`` /
+        ``get`` of its own): ``NAME[k]`` is ``NAME.get(k, E)`` -- the hook runs for subscription only, never for get()."""
+        cache = self.__dict__.setdefault('_missing_cache', {})
+        if self.m.name in cache:
+            return cache[self.m.name]
+        out: Dict[str, ast.expr] = {}
+        for name, vals in self.m.assigns.items():
+            if len(vals) != 1 or not (isinstance(vals[0], ast.Call) and isinstance(vals[0].func, ast.Name) and not vals[0].args
+                                      and not vals[0].keywords):
+                continue
+            k = self.m.classes.get(vals[0].func.id)
+            if k is None or not any(b.split('.')[-1] in ('dict', 'OrderedDict') for b in k.all_ext_bases()):
+                continue
+            if any(nm in c_.methods for c_ in k.mro() for nm in ('__getitem__', 'get', '__contains__', '__init__')):
+                continue
+            ms = k.find_method('__missing__')
+            if ms is None:
+                continue
+            body = _body(ms.node)
+            if len(body) != 1 or not isinstance(body[0], ast.Return) or body[0].value is None:
+                continue
+            e = body[0].value
+            if any(isinstance(n, ast.Name) and n.id in ms.params for n in ast.walk(e)) or any(isinstance(n, ast.Call) for n in ast.walk(e)):
+                continue
+            if name in self.globals_rebound:
+                continue
+            out[name] = e
+        cache[self.m.name] = out
+        return out
+
+    def _missing_hooks(self, fnode, cls, local):
+        tables = self._missing_tables()
+        if not tables:
+            return
+        me = self
+
+        class T(ast.NodeTransformer):
+            def visit_FunctionDef(self_, n):
+                return n if n is not fnode else self_.generic_visit(n)
+            visit_AsyncFunctionDef = visit_FunctionDef
+
+            def visit_Subscript(self_, n):
+                n = self_.generic_visit(n)
+                if isinstance(n.ctx, ast.Load) and isinstance(n.value, ast.Name) and n.value.id in tables and n.value.id not in local \
+                        and not isinstance(n.slice, ast.Slice):
+                    me.stats['missing_hooks'] = me.stats.get('missing_hooks', 0) + 1
+                    return ast.copy_location(ast.Call(func=ast.Attribute(value=n.value, attr='get', ctx=ast.Load()),
+                                                      args=[n.slice, copy.deepcopy(tables[n.value.id])], keywords=[]), n)
+                return n
+        T().visit(fnode)
+        ast.fix_missing_locations(fnode)
 
     def _builtin_forms(self, fnode, cls, local):
         """* ``d.keys()`` where only the keys are iterated / counted (argument of max / min / sorted / list / len .., iterable of
